@@ -16,6 +16,7 @@ import time
 
 HERE = os.path.dirname(os.path.abspath(__file__))
 VERIF = os.path.dirname(HERE)
+BUILD_DIR = os.path.join(VERIF, 'build', f'p{os.getpid()}')
 sys.path.insert(0, HERE)
 import vunit  # noqa: E402
 import kunit  # noqa: E402
@@ -55,7 +56,7 @@ def vacuity_lines(lines):
 
 def run_verus_unit(pid, unit, tier, evidence, problems):
     spec = os.path.join(VERIF, 'units', unit + '.vspec')
-    workdir = os.path.join(VERIF, 'build')
+    workdir = BUILD_DIR      # per process: two checks running at the same time never share an assembled unit file
     rec = {'unit': unit, 'backend': 'verus'}
     evidence['units'].append(rec)
     try:
@@ -380,4 +381,15 @@ def do_replay(pid, path):
 
 
 if __name__ == '__main__':
-    sys.exit(main())
+    # housekeeping of the per-process work directories: stale ones (older than 6 h) go, this run's goes unless something failed
+    import shutil as _sh, time as _t, glob as _g
+    for _d in _g.glob(os.path.join(VERIF, 'build', 'p*')):
+        try:
+            if os.path.isdir(_d) and _t.time() - os.path.getmtime(_d) > 6 * 3600:
+                _sh.rmtree(_d, ignore_errors=True)
+        except OSError:
+            pass
+    _rc = main()
+    if _rc == 0:
+        _sh.rmtree(BUILD_DIR, ignore_errors=True)
+    sys.exit(_rc)
